@@ -225,6 +225,42 @@ def corpus_files():
     return sorted(glob.glob(os.path.join(root, '**', '*.jaqal'), recursive=True))
 
 
+def suite_pass_records(wd, sites):
+    """every call of a transformation pass that the repository's OWN tests make (recorded by harness/pytest_record.py in a
+    run of those tests; nothing in /repo changes), as cases of the trace specification: code -> spec on inputs and call
+    sequences nobody here wrote"""
+    import subprocess
+    import sys
+    rec = os.path.join(wd, 'suite_passes.ndjson')
+    if os.path.exists(rec):
+        os.remove(rec)
+    src = os.environ.get('VERIF_REPO_SRC', '/repo/src')
+    env = dict(os.environ, PYTHONPATH=core.ROOT + ':' + src, VERIF_RECORD_PASSES=rec)
+    env.pop('JAQALPAQ_VERIF_TRACE', None)
+    subprocess.run([sys.executable, '-m', 'pytest', '-q', '-p', 'no:cacheprovider', '-p', 'harness.pytest_record', 'tests/core',
+                    'tests/jaqalparser'], cwd=os.path.dirname(src.rstrip('/')), env=env, capture_output=True, text=True, timeout=900)
+    out, seen = [], set()
+    if os.path.exists(rec):
+        for line in open(rec):
+            if line in seen:
+                continue
+            seen.add(line)
+            r = json.loads(line)
+            if r['site'] in sites:
+                out.append(dict(r, id='suite/%d' % len(out), prep='prepare_all', meas='measure_all',
+                                text='[call recorded from the repository test suite] ' + render_safe(r['inp'])))
+        os.remove(rec)
+    return out
+
+
+def render_safe(prog):
+    try:
+        return render.render_prog(prog if prog['natives'] != [{'v': '<exact>', 'kinds': [], 'cls': 'tag', 'unitary': False}]
+                                  else dict(prog, natives=[]))
+    except Exception:
+        return '<unrenderable>'
+
+
 def run_property(prop, tier, configs, sites_fn, owned, nontrivial, rule, module='Conform_Pass', extra_jobs=None,
                  shard_size=3000, variants=(), extra_stage=None, strata=None):
     """Generic driver: enumerate (TLC) -> render/parse/apply passes (real code) -> validate (TLC)."""
@@ -273,6 +309,10 @@ def run_property(prop, tier, configs, sites_fn, owned, nontrivial, rule, module=
     rep.cov['repository_example_files'] = ncorpus
     rep.phase('tlc_enumeration')
     recs = [c for cs in core.pool_map(run_program, jobs, chunksize=100) for c in cs]
+    if module == 'Conform_Pass':
+        suite = suite_pass_records(wd, {st for st, _ in sites_fn(dict(EMPTY_PROG), rng)})
+        rep.cov['pass_calls_recorded_from_repository_tests'] = len(suite)
+        recs += suite
     rep.phase('replay')
     verdicts, stats = core.validate(module, recs, wd, shard_size=shard_size)
     rep.phase('tlc_validation')
